@@ -83,6 +83,35 @@ def run(prog, rep, tier, repo):
         pp_sites.append((ct, it, vw, holders))
         if c_.path in pdb.bodies:
             rep.touch(c_.path)
+    # a bracket index returned by a helper that counts in a loop of its own (`while idx < n - 1 && !(x[idx] > t) { idx += 1 }`): the helper's
+    # counter bounds, with its parameters replaced by the arguments, bound the call's value here
+    from ..structs import subst as _subst
+    for c_ in f.calls():
+        if not c_.path or c_.path not in pdb.bodies or c_.path == K:
+            continue
+        h_ = prog.func(c_.path)
+        if h_ is None:
+            continue
+        rv_ = h_.return_values()
+        hb_ = counter_bounds(h_)
+        if len(rv_) != 1 or rv_[0] not in hb_:
+            continue
+        mp_ = {('arg', i_ + 1, h_.names.get(i_ + 1)): a_ for i_, a_ in enumerate(c_.args)}
+
+        def tr_poly(pl, mp_=mp_):
+            # polynomials are dicts monomial -> coefficient over term atoms: translate the atoms
+            out = {}
+            for mono, cf in pl.items():
+                mono2 = tuple(sorted((_subst(a_, mp_) for a_ in mono), key=repr))
+                out[mono2] = out.get(mono2, 0) + cf
+            return out
+        lo_, hi_ = hb_[rv_[0]]
+        ct = ('call', c_.path, tuple(c_.args), None)
+        holders = [st.target for st in f.stores() if st.value == ct and tag(st.target) == 'local']
+        for h2 in [ct] + holders:
+            if h2 not in bounds:
+                bounds[h2] = (tr_poly(lo_), tr_poly(hi_))
+        rep.touch(c_.path)
     for loc, (lo, hi) in bounds.items():
         from ..poly import pshow
         rep.info('counter', 'counter:%s' % show(loc), '%s in [%s, %s]' % (show(loc), pshow(lo, show), pshow(hi, show)))
